@@ -178,6 +178,32 @@ Fixpoint find_leaf (h d : nat) (t : ght) (r : row) : option (list row) :=
   | _, _ => None
   end.
 
+(* ---- the join bimorphisms (lattice.rs) ----
+   GhtValTypeProductBimorphism on two leaves: every pair (a, b) gives  a ++ ValType-part-of-b,
+   collected (FromIterator -> extend) into the output leaf's set storage.
+   GhtNodeKeyedBimorphism: for head in ght_b.iter() { if let Some(get_a) = ght_a.get(&head)
+     { children.insert(head, inner.call(get_a, ght_b.get(&head).unwrap())) } }.
+   DeepJoinLatticeBimorphism = NodeKeyed nested once per key column over ValTypeProduct;
+   [nk] is the number of key columns of the (common) input schema. *)
+Fixpoint deep_join (h nk : nat) (a b : ght) : ght :=
+  match h, a, b with
+  | 0, Leaf ra, Leaf rb =>
+      Leaf (hs_extend hs_new (flat_map (fun x => map (fun y => x ++ skipn nk y) rb) ra))
+  | S h', Inner ca, Inner cb =>
+      Inner (flat_map (fun kv : N * ght =>
+                         match cget ca (fst kv) with
+                         | Some va => [(fst kv, deep_join h' nk va (snd kv))]
+                         | None => []
+                         end) cb)
+  | _, _, _ => empty h
+  end.
+
+(* GhtCartesianProductBimorphism applied at the two roots: all pairs a ++ b, collected with
+   FromIterator (= insert one by one) into an output trie with [nko] key columns *)
+Definition cart_product (h nko : nat) (a b : ght) : ght :=
+  fold_left (fun t r => insert nko 0 t r)
+            (flat_map (fun x => map (fun y => x ++ y) (riter h b)) (riter h a)) (empty nko).
+
 (* ---------------------------------------------------------------- histories on two tries *)
 Inductive gop :=
 | GInsert (w : bool) (r : row)
@@ -189,7 +215,9 @@ Inductive gop :=
 | GCmp (w : bool)                   (* reg[w].partial_cmp(&reg[!w]) *)
 | GEq (w : bool)
 | GHeight (w : bool)
-| GIsBot (w : bool).
+| GIsBot (w : bool)
+| GJoin (w : bool)                  (* deep join of reg[w] with reg[!w]; rows of the output trie *)
+| GCart (w : bool) (nko : nat).     (* cartesian product into a trie with nko key columns *)
 
 Inductive gans :=
 | GABool (b : bool) | GANum (n : N) | GARows (l : list row) | GAOptRows (o : option (list row))
@@ -207,6 +235,8 @@ Definition gstep (nk : nat) (p : ght * ght) (o : gop) : (ght * ght) * gans :=
   | GEq w => (p, GABool (peq nk (sel w p) (sel (negb w) p)))
   | GHeight w => (p, GANum (N.of_nat nk))
   | GIsBot w => (p, GABool (is_bot nk (sel w p)))
+  | GJoin w => (p, GARows (riter nk (deep_join nk nk (sel w p) (sel (negb w) p))))
+  | GCart w nko => (p, GARows (riter nko (cart_product nk nko (sel w p) (sel (negb w) p))))
   end.
 
 Fixpoint grun_from (nk : nat) (p : ght * ght) (ops : list gop) : list gans :=
@@ -228,6 +258,12 @@ Definition subset_cmp (a b : bag) : pres :=
   | false, false => PNone
   end.
 Definition has_prefix (p : list N) (r : row) : bool := row_eqb p (firstn (length p) r).
+(* relational natural join on the first nk columns: a ++ (value columns of b) *)
+Definition join_spec (nk : nat) (a b : bag) : list row :=
+  flat_map (fun x => map (fun y => x ++ skipn nk y)
+                         (filter (fun y => row_eqb (firstn nk x) (firstn nk y)) b)) a.
+Definition cart_spec (a b : bag) : list row :=
+  flat_map (fun x => map (fun y => x ++ y) b) a.
 
 Definition gspec_step (nk : nat) (p : bag * bag) (o : gop) : (bag * bag) * gans :=
   match o with
@@ -244,6 +280,8 @@ Definition gspec_step (nk : nat) (p : bag * bag) (o : gop) : (bag * bag) * gans 
   | GEq w => (p, GABool (set_eqb (sel w p) (sel (negb w) p)))
   | GHeight w => (p, GANum (N.of_nat nk))
   | GIsBot w => (p, GABool (Nat.eqb (length (sel w p)) 0))
+  | GJoin w => (p, GARows (distinct (join_spec nk (sel w p) (sel (negb w) p))))
+  | GCart w nko => (p, GARows (distinct (cart_spec (sel w p) (sel (negb w) p))))
   end.
 Fixpoint gspec_from (nk : nat) (p : bag * bag) (ops : list gop) : list gans :=
   match ops with
@@ -286,6 +324,7 @@ Definition gop_ok (arity : nat) (o : gop) : bool :=
   match o with
   | GInsert _ r | GContains _ r | GLeaf _ r => Nat.eqb (length r) arity
   | GPrefix _ q => Nat.leb (length q) arity
+  | GCart _ nko => Nat.leb nko (arity + arity)
   | _ => true
   end.
 Definition gops_ok (nk arity : nat) (ops : list gop) : bool :=
